@@ -6,6 +6,7 @@ import contextlib
 import io
 import json
 import sys
+import types
 import warnings
 import zipfile
 from pathlib import Path
@@ -87,6 +88,9 @@ def identity_partition(obj):
                 visit(x, path + ("c", i))
         elif isinstance(o, np.ma.MaskedArray):
             pass
+        elif isinstance(o, types.MethodType):
+            # a bound method carries its owner: the owner must be THE object, not a copy
+            visit(o.__self__, path + ("self",))
         elif hasattr(o, "__dict__") and not isinstance(o, type) and not callable(o):
             for k in sorted(o.__dict__):
                 visit(o.__dict__[k], path + ("a", k))
